@@ -274,6 +274,28 @@ def check_case(z, rec):
         else:
             continue
         break
+    # the element bit through the matcher itself, with the element as first and as second query atom (the two positions are
+    # tested by different code in the compiled matcher): Cl-X matches Cl-Y exactly when X is Y
+    if z <= 115:
+        from chython import QueryContainer
+        from chython.periodictable import QueryElement
+        for y in dict.fromkeys([z, z % 115 + 1, (z + 17) % 115 + 1, 78, 79, 57, 92, 26, 6]):
+            ysym = SYMBOLS[y - 1]
+            mol2 = MoleculeContainer()
+            mol2.add_atom('Cl', 1)
+            mol2.add_atom(Element.from_atomic_number(y)(), 2)
+            mol2.add_bond(1, 2, 1)
+            for order in ((1, 2), (2, 1)):
+                q2 = QueryContainer('pair')
+                for k2 in order:
+                    q2.add_atom(QueryElement.from_symbol('Cl')() if k2 == 1 else QueryElement.from_atomic_number(z)(), k2)
+                q2.add_bond(1, 2, 1)
+                ok, hits = rec.guard('matcher-pair', lambda: list(q2.get_mapping(mol2)))
+                if ok and bool(hits) != (y == z):
+                    rec.fail('matcher-element', f'query Cl-[{sym}] (atoms added in order {order}) on Cl[{ysym}]: '
+                                                f'{"matched" if hits else "not matched"}', sig=sym)
+                    break
+        rec.count('matcher-pairs')
     rec.count('layout-pairs', len(q_words) * len(mol_words))
     rec.sample('element', dict(symbol=sym, number=z, isotopes=sorted(dist), reference=ref))
 
